@@ -226,6 +226,11 @@ def linking_loop(chk):
             chk.count(len(outs))
             for o in outs:
                 if o.kind == "raise":
+                    # the "no template survives" guard must never fire for a well-formed pipeline: a template in tail
+                    # position (the pool written as a __type__ mapping) is constructed, not reported
+                    if is_exc(o.value) and o.value[1] == "ext:builtins.AssertionError" and any(e[0] == "loop-iter" for e in o.path.events) and ok:
+                        chk.bad(rule, name, "a well-formed pipeline (%s tail) makes the translation fail with AssertionError: the template in tail position is not constructed before the no-template-survives guard" % ("template" if tail_is_partial else "object"), node=fi.node, stmt="tail-guard-fires", input="kinds %s, tail %s" % (item_kinds, "template" if tail_is_partial else "object"))
+                        ok = False
                     continue
                 iters = [e for e in o.path.events if e[0] == "loop-iter"]
                 if o.kind != "return":
